@@ -865,6 +865,9 @@ func (e Env) String() string {
 	return strings.Join(ss, ";")
 }
 
+// closedWorldNoImpl is set by the loader: no named type of the module implements the interface.
+var closedWorldNoImpl func(it *types.Interface) bool
+
 type Evaluator struct {
 	// Assume gives values to leaves (parameters, loads) the rule wants to fix.
 	Assume func(v ssa.Value, fr *Frame) (constant.Value, bool)
@@ -913,6 +916,15 @@ func (ev *Evaluator) evalD(v ssa.Value, env Env, fr *Frame, d int) (constant.Val
 		if env != nil {
 			if k, ok := env[envKey{x.Tuple, x.Index, ""}]; ok {
 				return k, true
+			}
+		}
+		// `v, ok := x.(I)` for an unexported interface I of the module that no type of the module implements: ok is
+		// false (closed world: values of foreign types cannot have the unexported methods' package either)
+		if ta, isTA := x.Tuple.(*ssa.TypeAssert); isTA && ta.CommaOk && x.Index == 1 && closedWorldNoImpl != nil {
+			if nt, isN := types.Unalias(ta.AssertedType).(*types.Named); isN && !nt.Obj().Exported() {
+				if it, isI := nt.Underlying().(*types.Interface); isI && it.NumMethods() > 0 && closedWorldNoImpl(it) {
+					return constant.MakeBool(false), true
+				}
 			}
 		}
 		return nil, false
